@@ -29,7 +29,7 @@ TIERS = {
     # 'hyp': (chunks, examples per chunk) for the Hypothesis generator, light and heavy
     'smoke': {'hyp': {'light': (2, 40), 'heavy': (1, 8)}, 'runs': {'light-faultfree': 300, 'light-faulty': 300, 'heavy-faultfree': 48, 'heavy-faulty': 48}, 'chunk': {'light': 50, 'heavy': 12}, 'cap_s': 120, 'det_seeds': 4},
     'quick': {'hyp': {'light': (8, 150), 'heavy': (4, 20)}, 'runs': {'light-faultfree': 3000, 'light-faulty': 5000, 'heavy-faultfree': 300, 'heavy-faulty': 650}, 'chunk': {'light': 250, 'heavy': 50}, 'cap_s': 150, 'det_seeds': 16},
-    'thorough': {'hyp': {'light': (48, 2000), 'heavy': (32, 150)}, 'runs': {'light-faultfree': 120000, 'light-faulty': 180000, 'heavy-faultfree': 14000, 'heavy-faulty': 22000}, 'chunk': {'light': 1000, 'heavy': 100}, 'cap_s': 1500, 'det_seeds': 64},
+    'thorough': {'hyp': {'light': (48, 1200), 'heavy': (32, 100)}, 'runs': {'light-faultfree': 60000, 'light-faulty': 100000, 'heavy-faultfree': 7000, 'heavy-faulty': 12000}, 'chunk': {'light': 500, 'heavy': 100}, 'cap_s': 2400, 'det_seeds': 64},
 }
 
 
